@@ -626,6 +626,16 @@ class SubprocSpec:
         event_name = self._cmd_event_name()
         self._pre_run_event_fire(event_name)
         kwargs = {n: getattr(self, n) for n in self.kwnames}
+        if (
+            isinstance(kwargs["stdout"], int)
+            and kwargs["stdout"] == 2
+            and kwargs["stderr"] is not None
+            and kwargs["stderr"] != subprocess.STDOUT
+        ):
+            # ``o>e`` with stderr redirected (``e> file``, ``e>p``): stdout
+            # follows THIS command's stderr, as it does in the capturing
+            # forms, rather than going to the shell's descriptor 2.
+            kwargs["stdout"] = kwargs["stderr"]
         if callable(self.alias):
             kwargs["env"] = self.env or {}
             kwargs["env"]["__ALIAS_NAME"] = self.alias_name or ""
